@@ -185,9 +185,18 @@ func sipReadStream(r *bufio.Reader) (*RMsg, error) {
 	if n < 0 {
 		return nil, errors.New("stream message without Content-Length")
 	}
-	m.Body = make([]byte, n)
-	if _, err := io.ReadFull(r, m.Body); err != nil {
+	// (the declared length is not trusted with an allocation: the body is read as
+	// it comes, a stream that ends early yields the reader's error)
+	var body bytes.Buffer
+	if got, err := io.CopyN(&body, r, int64(n)); err != nil {
+		if err == io.EOF && got > 0 {
+			err = io.ErrUnexpectedEOF
+		}
 		return nil, err
+	}
+	m.Body = body.Bytes()
+	if m.Body == nil {
+		m.Body = []byte{}
 	}
 	return m, nil
 }
